@@ -57,3 +57,19 @@ From V Require Import SchemaDefs Generated SamlSchema P_SamlSchema.
 Theorem C20_decode_schema_is_saml_core : xml_schema = saml_core_schema.
 Proof. exact schema_is_saml_core. Qed.
 Print Assumptions C20_decode_schema_is_saml_core.
+
+(* ---- tie to the source text of this run (unit GenDeflate): the two unverified decoders as TRANSLATED from decode_response.go
+   are base64, then maybeDeflate with the default limit over xml.Unmarshal of the bytes into a fresh struct — the row of
+   Deflate.v's entry-point table — for every message and every behaviour of the DEFLATE / xml.Unmarshal oracles ---- *)
+From V Require Import Deflate GenPrelude GenPreludeDeflate GenDeflate P_GenDeflate.
+Theorem C20_source_DecodeUnverifiedBaseResponse_is_the_model :
+  forall (inflate : string -> Z -> string * bool) (um : string -> base_response * option err) (enc : string),
+  G_DecodeUnverifiedBaseResponse inflate um enc = PVal (unverified_entry inflate EP_DecodeUnverifiedBaseResponse um enc).
+Proof. exact G_DecodeUnverifiedBaseResponse_is_model. Qed.
+Print Assumptions C20_source_DecodeUnverifiedBaseResponse_is_the_model.
+
+Theorem C20_source_DecodeUnverifiedLogoutResponse_is_the_model :
+  forall (inflate : string -> Z -> string * bool) (um : string -> logout_response * option err) (enc : string),
+  G_DecodeUnverifiedLogoutResponse inflate um enc = PVal (unverified_entry inflate EP_DecodeUnverifiedLogoutResponse um enc).
+Proof. exact G_DecodeUnverifiedLogoutResponse_is_model. Qed.
+Print Assumptions C20_source_DecodeUnverifiedLogoutResponse_is_the_model.
